@@ -962,3 +962,58 @@ func parseLinText(s string) *linForm {
 	}
 	return l
 }
+
+// PAR-RESULTTYPE: what follows a parameter list on the same line is the function's result
+// type only when it can begin a type. getReturns decides that positively (the token is one
+// that starts a type), not by excluding a handful of tokens that cannot: with an exclusion
+// list, the `=` of `var cb func(int) = h` is taken for a result type and the declaration is a
+// parse error.
+func ruleParResultType(c *Ctx, r *R) {
+	fd := c.Func("getReturns")
+	if fd == nil {
+		r.undecided("getReturns", "-", "not found")
+		return
+	}
+	n := 0
+	for _, h := range c.withHelpers(fd) {
+		ast.Inspect(h.Body, func(m ast.Node) bool {
+			call, ok := m.(*ast.CallExpr)
+			if !ok || c.CalleeName(call) != "getType" {
+				return true
+			}
+			// the innermost enclosing if that is not the parenthesised-list branch
+			for p := c.Parent(call); p != nil && p != ast.Node(h.Body); p = c.Parent(p) {
+				ifs, ok := p.(*ast.IfStmt)
+				if !ok {
+					continue
+				}
+				cs := c.Src(ifs.Cond)
+				if strings.Contains(cs, `"("`) && !strings.Contains(cs, "!=") {
+					return true // inside the `(` ... `)` result list: every entry is a type
+				}
+				n++
+				positive := false
+				ast.Inspect(ifs.Cond, func(q ast.Node) bool {
+					switch x := q.(type) {
+					case *ast.CallExpr:
+						if d := c.DeclOf(c.Callee(x)); d != nil {
+							positive = true // a predicate over the token
+						}
+					case *ast.BinaryExpr:
+						if x.Op == token.EQL && strings.Contains(nosp(c.Src(x)), ".Symbol==") {
+							positive = true
+						}
+					}
+					return true
+				})
+				r.check(positive, "single result type", c.Pos(ifs), "a result type is read only when the next token can begin a type",
+					"getReturns reads a result type whenever the next token on the line is not one of a few excluded ones ("+cs+"): in `var cb func(int) = h` the `=` reaches getType — `type: unexpected symbol: =` on a valid declaration")
+				return true
+			}
+			return true
+		})
+	}
+	if n == 0 {
+		r.undecided("getReturns", c.Pos(fd), "no guarded single result type found")
+	}
+}
